@@ -72,11 +72,16 @@ Inductive res := RNext (s : st) | RRet (v : dval) (fresh : list bytes).
 
 (** the loop of a [BRange]: one run of the body per element (a slice element, or a (key, value) pair of a map given as a
     list of pairs), in order; the loop itself uses no fuel, so it is defined for lists of any length *)
+Definition unpair (x : dval) : dval * dval :=
+  match x with
+  | DObj ty [(k1, a); (k2, c)] => if String.eqb ty "pair" && String.eqb k1 "k" && String.eqb k2 "v" then (a, c) else (DNil, x)
+  | _ => (DNil, x)
+  end.
 Fixpoint range_loop (body_run : st -> option res) (kx vx : string) (l : list dval) (s : st) : option res :=
   match l with
   | [] => Some (RNext s)
   | x :: r =>
-      let '(kv, vv) := match x with DObj "pair" [("k", a); ("v", c)] => (a, c) | _ => (DNil, x) end in
+      let '(kv, vv) := unpair x in
       match body_run {| s_env := env_set (env_set (s_env s) kx kv) vx vv; s_fresh := s_fresh s |} with
       | Some (RNext s') => range_loop body_run kx vx r s'
       | Some (RRet v f) => Some (RRet v f)
